@@ -12,7 +12,7 @@ instead of matching helper names, variable names, expression text or branch shap
 import itertools
 
 from ..core import (names_of, AnalysisBroken, Inliner, canon, strip, last_member, norm_cond, walk, forward)
-from ..analyses import (is_call, holding, path_to, describe, callback_kind, atoms_imply, list_empty_test)
+from ..analyses import (is_call, holding, path_to, describe, callback_kind, atoms_imply)
 from .. import roles
 from . import c06
 from . import h02
@@ -31,6 +31,7 @@ REQ_POLL, REQ_EPOLL = ('pollfd', 'events'), ('epoll_event', 'events')   # where 
 WAITS = ('epoll_wait', 'epoll_pwait', 'epoll_pwait2', 'poll', 'ppoll')
 ARRAY_WAITS = ('poll', 'ppoll')
 SLOTS = ('poll', 'notify_fd', 'notify_fd_sync', 'unregister_fd', 'register_fd')
+NOTIFY_SLOTS = {('iv_fd_poll_method', 'notify_fd'), ('iv_fd_poll_method', 'notify_fd_sync')}
 
 
 def is_method_notify(e):
@@ -75,7 +76,7 @@ def slot_roots(prog, slots=SLOTS, tables=None):
 
 def inline_slot(prog, t, f, stop=('iv_event_run_pending_events',)):
     stop = tuple(stop)
-    return Inliner(prog, method_table=t, expand_methods=True, stop=lambda x: x.name in stop).inline(f)
+    return h02.fold_deref_addr(Inliner(prog, method_table=t, expand_methods=True, stop=lambda x: x.name in stop).inline(f))
 
 
 def run(ctx):
@@ -156,7 +157,7 @@ def _compaction_path(sym, p, fdterm):
                 k = ('fld', a, 'pollfd', fld)
                 if k in M:
                     return M[k]
-                return ('ld', ('fld', src, 'pollfd', fld)) if whole else None
+                return sym.read(k, M) if a in M else None       # the entry was written as a whole (copy / struct value)
             fdv, evv = eff('fd'), eff('events')
             fd_ok = fdv is not None and (fdv == ('ld', ('fld', src, 'pollfd', 'fd')) or (L is not None and fdv == ('ld', ('fld', L, FD, 'fd'))))
             wl = ('ld', ('fld', L, FD, 'wanted_bands')) if L is not None else None
@@ -198,7 +199,9 @@ def _add_path(sym, p, fdterm):
             evv = sym.read(('fld', a, 'pollfd', 'events'), M)
             fd_ok = fdv == ('ld', ('fld', fdterm, FD, 'fd'))
             # which mask is R-C02d's business (the helper computing it is inlined: the dependence on wanted_bands is control flow)
-            ev_ok = (('fld', a, 'pollfd', 'events') in M or a in M) and evv[0] != 'ld'
+            # ... it must be written, and not be a copy of some array entry's (old) request
+            ev_ok = (('fld', a, 'pollfd', 'events') in M or a in M) \
+                and not (evv[0] == 'ld' and isinstance(evv[1], tuple) and evv[1][0] == 'fld' and evv[1][2] == 'pollfd')
             r['entry'] = fd_ok and ev_ok
             r['why'] = 'new pollfd entry: fd is the descriptor\'s fd: %s, events written: %s' % ('yes' if fd_ok else 'no', 'yes' if ev_ok else 'no')
     return r
@@ -299,7 +302,7 @@ def notify(ctx):
     def core_store(e):
         return e['ev'] == 'store' and last_member(e['lhs']) in CORE_FIELDS
 
-    for f in h02.nearest_roots(prog, core_store):
+    for f in h02.nearest_roots(prog, core_store, mentions=CORE_FIELDS):
         g = h02.inlined(prog, f)
         stores = [e for e in g.events() if core_store(e)]
         if not stores:
@@ -326,7 +329,7 @@ def notify(ctx):
         return is_call(e, ('iv_fd_register', 'iv_fd_register_try')) and bool(e.get('args')) \
             and bool((set(names_of(e['args'][0])) | {canon(e['args'][0])}) & objs)
 
-    for f in h02.nearest_roots(prog, pub_store):
+    for f in h02.nearest_roots(prog, pub_store, mentions=PUBLIC_HANDLERS):
         g = h02.inlined(prog, f)
         stores = [e for e in g.events() if pub_store(e)]
         bad = unfollowed(prog, g, stores, registers)
@@ -361,7 +364,7 @@ def wanted(ctx):
             if hit:
                 raise AnalysisBroken('poll method slot %s writes %s.%s: the core/method split of the interest fields is gone' % (hit[0], fld[0], fld[1]))
     nroots = 0
-    for f in h02.nearest_roots(prog, is_method_notify):
+    for f in h02.nearest_roots(prog, is_method_notify, mentions=NOTIFY_SLOTS):
         g = h02.inlined(prog, f)
         sites = [e for e in g.events() if is_method_notify(e)]
         if not sites:
@@ -422,10 +425,37 @@ def wanted(ctx):
 # R-C02c  deferred updates are queued and drained before the wait
 # --------------------------------------------------------------------------
 
-def _addr_member(a):
-    a = strip(a)
+def _addr_member(a, aliases=None):
+    """(record, field) of the member whose address the pointer expression denotes (`&x->f`, or a local caching it)"""
+    a = h02.resolve_alias(a, aliases)
     if isinstance(a, dict) and a.get('k') == 'addr':
         return last_member(a['e'])
+    return None
+
+
+LIST_LINKS = {('iv_list_head', 'next'), ('iv_list_head', 'prev')}
+
+
+def empty_test(atom, head, aliases=None):
+    """'empty' / 'nonempty' when the atom decides emptiness of the list `head` = (record, field): a truth test of
+    iv_list_empty(p) or a comparison of p->next / p->prev with p, p denoting &head (directly or through a caching local)."""
+    (op, lc, rc, l, r) = atom
+    c = strip(l)
+    if isinstance(c, dict) and c.get('k') == 'call' and c.get('callee') == 'iv_list_empty' and rc == '0' and c.get('args'):
+        if _addr_member(c['args'][0], aliases) == head:
+            return 'empty' if op == '!=' else 'nonempty'
+        return None
+    if op in ('==', '!=') and isinstance(l, dict) and isinstance(r, dict):
+        for (a_, b_) in ((strip(l), strip(r)), (strip(r), strip(l))):
+            if isinstance(a_, dict) and a_.get('k') == 'member' and last_member(a_) in LIST_LINKS:
+                if a_.get('arrow'):
+                    same = canon(a_['base']) == canon(b_)
+                    p_ = a_['base']
+                else:
+                    same = isinstance(b_, dict) and b_.get('k') == 'addr' and canon(b_['e']) == canon(a_['base'])
+                    p_ = b_
+                if same and _addr_member(p_, aliases) == head:
+                    return 'empty' if op == '==' else 'nonempty'
     return None
 
 
@@ -435,12 +465,174 @@ def notify_list(prog, t):
     f = prog.resolve(*v) if v else None
     if f is None:
         return None
-    for e in inline_slot(prog, t, f).events():
+    g = inline_slot(prog, t, f)
+    al = h02.addr_aliases(g)
+    for e in g.events():
         if is_call(e, ('iv_list_add', 'iv_list_add_tail')) and len(e.get('args', [])) == 2:
-            n, h = _addr_member(e['args'][0]), _addr_member(e['args'][1])
+            n, h = _addr_member(e['args'][0], al), _addr_member(e['args'][1], al)
             if n and n[0] == FD and h and h[0] != FD:
                 return n, h
     return None
+
+
+NEXT = ('iv_list_head', 'next')
+LIST_WRITERS = ('iv_list_add', 'iv_list_add_tail', 'iv_list_splice', 'iv_list_splice_init', 'iv_list_splice_tail',
+                'iv_list_splice_tail_init', '__iv_list_splice', '__iv_list_steal_elements', 'INIT_IV_LIST_HEAD')
+EMPTY3 = (frozenset(), frozenset(), frozenset())
+
+
+def drained(prog, g, head):
+    """{(block, index): bool}  must-analysis: the list `head` = (record, field) is known empty.
+
+    gen:  the empty edge of an emptiness test of the head (iv_list_empty / head.next == &head, also through a local
+          caching &head); steal / splice-init / INIT of the head; and the exit edge `c == &head` of a walk that consumes
+          the list from the front: c is known to be the *first* element (c = head.next), and it stays the first element
+          when the node c was unlinked and c moved to what was c->next before (iv_list_for_each_safe, `while ((c =
+          head.next) != &head)`, a saved next pointer ...) -- reaching the head then means nothing is left.
+    kill: adds / splices into the head, raw stores to list links, user callbacks, library calls that were not inlined."""
+    al = h02.addr_aliases(g)
+
+    def is_head_ptr(x):
+        return _addr_member(x, al) == head
+
+    def cls(x, st):
+        """'first' (the value of head.next) / 'second' (head.next->next) / None for a pointer expression"""
+        (first, second, entry) = st
+        x = strip(x)
+        if not isinstance(x, dict):
+            return None
+        was = x.get('_was')
+        if was in first:
+            return 'first'
+        if was in second:
+            return 'second'
+        if x.get('k') == 'var':
+            return 'first' if x['name'] in first else 'second' if x['name'] in second else None
+        if x.get('k') == 'member' and last_member(x) == NEXT:
+            if x.get('arrow'):
+                if is_head_ptr(x['base']):
+                    return 'first'
+                if cls(x['base'], st) == 'first':
+                    return 'second'
+            elif last_member(x['base']) == head:
+                return 'first'
+        return None
+
+    def node_is_first(a, st):
+        """does the pointer argument of an unlink denote the first element?"""
+        a = strip(a)
+        if cls(a, st) == 'first':
+            return True
+        if isinstance(a, dict) and a.get('k') == 'addr':
+            m = strip(a['e'])
+            if isinstance(m, dict) and m.get('k') == 'member' and m.get('arrow'):
+                b = strip(m['base'])
+                if isinstance(b, dict) and b.get('k') == 'var' and (b['name'], m['field']) in st[2]:
+                    return True
+                if isinstance(b, dict) and b.get('_was') and (b['_was'], m['field']) in st[2]:
+                    return True
+                if isinstance(b, dict) and b.get('k') == 'container_of' and b.get('member') == m['field'] and cls(b['e'], st) == 'first':
+                    return True
+        return False
+
+    def nonnull_value(x, nn):
+        x = strip(x)
+        while isinstance(x, dict) and x.get('k') == 'assign':       # `(v = e) != NULL`: the store was emitted before the test
+            x = strip(x.get('l'))
+        if not isinstance(x, dict):
+            return False
+        if x.get('k') in ('addr', 'container_of'):
+            return True
+        return x.get('k') == 'var' and x['name'] in nn
+
+    def tr(e, s):
+        d, st, nn = s
+        if e['ev'] == 'store':
+            l = strip(e['lhs'])
+            if isinstance(l, dict) and l.get('k') == 'var':
+                n = l['name']
+                c = cls(e.get('rhs'), st) if e['op'] == '=' else None
+                r = strip(e.get('rhs')) if e['op'] == '=' else None
+                ent = None
+                if isinstance(r, dict) and r.get('k') == 'container_of' and cls(r['e'], st) == 'first':
+                    ent = (n, r.get('member'))
+                first = (st[0] - {n}) | ({n} if c == 'first' else set())
+                second = (st[1] - {n}) | ({n} if c == 'second' else set())
+                entry = frozenset(x for x in st[2] if x[0] != n) | ({ent} if ent else set())
+                nn = (nn - {n}) | ({n} if e['op'] == '=' and nonnull_value(e.get('rhs'), nn) else frozenset())
+                return (d, (frozenset(first), frozenset(second), frozenset(entry)), frozenset(nn))
+            if last_member(e['lhs']) in LIST_LINKS:
+                return (False, EMPTY3, nn)          # an open-coded list operation the core did not recognise
+            return s
+        if e['ev'] != 'call':
+            return s
+        nm = e.get('callee')
+        a = [_addr_member(x, al) for x in e.get('args', [])]
+        if nm in ('iv_list_add', 'iv_list_add_tail') and len(a) == 2 and (a[1] == head or a[0] == head):
+            return (False, EMPTY3, nn)
+        if nm in ('iv_list_splice', 'iv_list_splice_tail', '__iv_list_splice') and len(a) >= 2 and a[1] == head:
+            return (False, EMPTY3, nn)
+        if nm in ('iv_list_splice_init', 'iv_list_splice_tail_init', '__iv_list_steal_elements') and len(a) == 2:
+            if a[1] == head:
+                return (False, EMPTY3, nn)
+            if a[0] == head:
+                return (True, EMPTY3, nn)
+        if nm == 'INIT_IV_LIST_HEAD' and a and a[0] == head:
+            return (True, EMPTY3, nn)
+        if nm in ('iv_list_del', 'iv_list_del_init') and e.get('args'):
+            if node_is_first(e['args'][0], st):
+                return (d, (st[1], frozenset(), frozenset()), nn)    # what was second is first now
+            if a[0] == head:
+                return (False, EMPTY3, nn)
+            return (d, EMPTY3, nn)              # some node leaves some list: emptiness stays, the positions are no longer known
+        if nm in LIST_WRITERS:
+            return (d, EMPTY3, nn)
+        if 'fnexpr' in e and (callback_kind(e) or ('', ''))[0] != 'method':
+            return (False, EMPTY3, nn)            # a user callback may change a handler
+        if nm and nm not in h02.PRIMITIVES and any(x.name == nm and x.blocks for x in prog.funcs.values()):
+            return (False, EMPTY3, nn)            # library code that was not inlined
+        return s
+
+    def edge(blk, si, s):
+        if blk.term and blk.term.get('cond') is not None and len(blk.succ) == 2 and blk.term.get('cls') not in ('SwitchStmt', 'MethodDispatch'):
+            for at in norm_cond(blk.term['cond'], si == 0):
+                if at[0] == 'const':
+                    continue
+                (op, lc, rc, l, r) = at
+                # a pointer that was assigned the address of an object is not NULL: that edge is not taken
+                if op == '==' and rc == '0' and isinstance(l, dict) and strip(l).get('k') in ('var', 'assign') and nonnull_value(l, s[2]):
+                    return None
+                if empty_test(at, head, al) == 'empty':
+                    return (True, s[1], s[2])
+                if op == '==' and isinstance(l, dict) and isinstance(r, dict):
+                    for (x, y) in ((l, r), (r, l)):
+                        if cls(x, s[1]) == 'first' and is_head_ptr(y):
+                            return (True, s[1], s[2])
+        return s
+
+    def meet(a, b):
+        return (a[0] and b[0], tuple(x & y for x, y in zip(a[1], b[1])), a[2] & b[2])
+
+    # disjunctive (a helper that returns NULL on the empty edge and the unlinked first element otherwise is told apart by the
+    # caller's NULL test: the two outcomes must not be merged in between); collapsed to one state when the set grows
+    def tr_set(e, S):
+        return frozenset(tr(e, s_) for s_ in S)
+
+    def edge_set(blk, si, S):
+        out = frozenset(x for x in (edge(blk, si, s_) for s_ in S) if x is not None)
+        return out or None
+
+    def join(A, B):
+        U = A | B
+        if len(U) > 48:
+            it = iter(U)
+            acc = next(it)
+            for x in it:
+                acc = meet(acc, x)
+            return frozenset([acc])
+        return U
+    _, ev_in = forward(g, frozenset([(False, EMPTY3, frozenset())]), tr_set, join, edge=edge_set)
+    return {k: all(x[0] for x in v) for k, v in ev_in.items()}
 
 
 def flush(ctx):
@@ -460,35 +652,7 @@ def flush(ctx):
         if not waits:
             raise AnalysisBroken('%s: wait primitive not found' % f.name)
 
-        def tr(e, s, head=head):
-            if e['ev'] != 'call':
-                return s
-            nm = e.get('callee')
-            a = [_addr_member(x) for x in e.get('args', [])]
-            if nm in ('iv_list_add', 'iv_list_add_tail') and len(a) == 2 and (a[1] == head or a[0] == head):
-                return False
-            if nm in ('iv_list_splice', 'iv_list_splice_tail', '__iv_list_splice') and len(a) >= 2 and a[1] == head:
-                return False
-            if nm in ('iv_list_splice_init', 'iv_list_splice_tail_init', '__iv_list_steal_elements') and len(a) == 2:
-                if a[1] == head:
-                    return False
-                if a[0] == head:
-                    return True
-            if nm == 'INIT_IV_LIST_HEAD' and a and a[0] == head:
-                return True
-            if 'fnexpr' in e and (callback_kind(e) or ('', ''))[0] != 'method':
-                return False            # a user callback may change a handler
-            if nm and nm not in h02.PRIMITIVES and any(x.name == nm and x.blocks for x in prog.funcs.values()):
-                return False            # library code that was not inlined
-            return s
-
-        def edge(blk, si, s, head=head):
-            if blk.term and blk.term.get('cond') is not None and len(blk.succ) == 2 and blk.term.get('cls') not in ('SwitchStmt', 'MethodDispatch'):
-                for at in norm_cond(blk.term['cond'], si == 0):
-                    if at[0] != 'const' and list_empty_test(at, member_key=head) == 'empty':
-                        return True
-            return s
-        _, ev_in = forward(g, False, tr, lambda a, b: a and b, edge=edge)
+        ev_in = drained(prog, g, head)
         for w in waits:
             ok = bool(ev_in.get((w['_b'], w['_i'])))
             ctx.ob('R-C02c', '%s:%s:notify-list-empty' % (short(t), w['callee']), ok, loc=w['loc'],
@@ -500,11 +664,13 @@ def flush(ctx):
         gn = inline_slot(prog, t, nf)
         Q = ('x', 'queued')
 
-        def on_event(e, s, ai, node=node, head=head):
+        aln = h02.addr_aliases(gn)
+
+        def on_event(e, s, ai, node=node, head=head, aln=aln):
             if e['ev'] != 'call':
                 return None
             nm = e.get('callee')
-            a = [_addr_member(x) for x in e.get('args', [])]
+            a = [_addr_member(x, aln) for x in e.get('args', [])]
             if nm in ('iv_list_add', 'iv_list_add_tail') and len(a) == 2 and a[0] == node:
                 return _with(s, Q, 1 if a[1] == head else 0)
             if nm in ('iv_list_del', 'iv_list_del_init') and a and a[0] == node:
@@ -512,9 +678,9 @@ def flush(ctx):
             return None
 
         class AI(h02.AbsInt):
-            def ev(self, e, s, node=node):
+            def ev(self, e, s, node=node, aln=aln):
                 if isinstance(e, dict) and e.get('k') == 'call' and e.get('callee') == 'iv_list_empty' and e.get('args') \
-                        and _addr_member(e['args'][0]) == node and s.get(Q) is not None:
+                        and _addr_member(e['args'][0], aln) == node and s.get(Q) is not None:
                     return 1 - s[Q]
                 return h02.AbsInt.ev(self, e, s)
         ai = AI(gn, mem_key=_band_key, pinned={WANTED}, on_event=on_event, prog=prog)
@@ -575,6 +741,25 @@ def _is_token_key(key):
     return key[0] == 'l' and key[2][0] == ('epoll_event', 'data') and key[2][-1][1] == 'ptr'
 
 
+CTL = ('x', 'result of the last epoll_ctl')
+
+
+class KernelAI(h02.AbsInt):
+    """the kernel call either succeeds (0) or fails (-1): both outcomes are followed, and every use of its value (stored,
+    tested directly, copied, returned through a helper or an out-parameter) evaluates to the outcome of the path"""
+
+    def step(self, e, s):
+        outs = h02.AbsInt.step(self, e, s)
+        if e['ev'] == 'call' and e.get('callee') == 'epoll_ctl':
+            return [_with(o, CTL, v) for o in outs for v in (-1, 0)]
+        return outs
+
+    def ev(self, e, s):
+        if isinstance(e, dict) and e.get('k') == 'call' and e.get('callee') == 'epoll_ctl':
+            return s.get(CTL)
+        return h02.AbsInt.ev(self, e, s)
+
+
 def kernel_requests(ctx):
     prog = ctx.prog
     sites = {}          # loc -> dict(kind, w -> (ok, detail), fn)
@@ -611,6 +796,10 @@ def kernel_requests(ctx):
                     lit = lit['e']
                 if isinstance(lit, dict) and lit.get('k') == 'init' and isinstance(lit.get('fields'), dict):
                     w_stores.append((e, lit['fields'].get('events')))
+                elif isinstance(lit, dict) and lit.get('k') == 'var' and lit.get('vk') in ('local', 'param'):
+                    # ... or from a local struct (an entry built by a helper and returned by value): its events field
+                    w_stores.append((e, {'k': 'load', 'e': {'k': 'member', 'arrow': False, 'base': lit, 'record': 'pollfd',
+                                                           'field': 'events', 'type': 'short'}}))
         ctls = [e for e in g.events() if is_call(e, 'epoll_ctl') and len(e.get('args', [])) == 4]
         r_stores = [e for e in g.events() if e['ev'] == 'store' and last_member(e['lhs']) == (FD, 'registered_bands')] if ctls else []
         sync = slot == 'notify_fd_sync' and t in deferring
@@ -621,7 +810,10 @@ def kernel_requests(ctx):
             # `.data = { .ptr = x }` / `.data.ptr = x` in an initialiser of a struct epoll_event
             if (rec, fld) == ('epoll_event', 'data') and len(node.get('elems', [])) == 1:
                 s[('l', name, ((rec, fld), ('epoll_data', 'ptr')))] = 1 if _is_fd_pointer(node['elems'][0]) else 0
-        ai = h02.AbsInt(g, mem_key=_band_key, pinned={WANTED}, norm=norm, quiet_calls=('epoll_ctl',), prog=prog, on_nested_init=nested)
+        # only the part of the root from which a site can still be reached is explored (the activation code after the wait is not)
+        relevant = None if sync else h02.blocks_reaching(g, k_stores + [e for (e, x) in w_stores] + ctls + r_stores)
+        ai = KernelAI(g, mem_key=_band_key, pinned={WANTED}, norm=norm, quiet_calls=('epoll_ctl',), prog=prog, on_nested_init=nested,
+                      relevant=relevant)
         ev_in = ai.run([{WANTED: w, REGD: r} for w in range(8) for r in range(8)])
 
         def states(e):
@@ -682,8 +874,11 @@ def kernel_requests(ctx):
             for e in r_stores:
                 A = hd.get((e['_b'], e['_i']), frozenset())
                 okedge = any(atoms_imply(A, '>=', v, '0') for v in rets) or any(a[1].startswith('epoll_ctl(') and atoms_imply(A, '>=', a[1], '0') for a in A)
+                # ... or, path-sensitively: in every abstract state that reaches the store the last kernel call succeeded
+                reach = states(e)
+                okedge = okedge or (bool(reach) and all(s.get(CTL) == 0 for s in reach))
                 okval, why = True, ''
-                for s in states(e):
+                for s in reach:
                     v = ai.ev(e.get('rhs'), s) if e['op'] == '=' else None
                     if v != s[WANTED]:
                         okval, why = False, ' (stores %s with wanted bands %d, registered %s)' % (v, s[WANTED], s.get(REGD))
@@ -741,13 +936,20 @@ def _sigma_key(m):
 def report(ctx):
     prog = ctx.prog
     SIG, T, R, U = ('m', 'kernel', 'events'), ('x', 'tested'), ('x', 'reported'), ('x', 'unknown-band')
+    # the exported reporting primitive; its arguments by type: the descriptor and the (only) integer, the bands
+    mr = prog.fn('iv_fd_make_ready')
+    a_fd = [i for i, p_ in enumerate(mr.params) if p_.get('record') == FD and p_.get('ptr')]
+    a_band = [i for i, p_ in enumerate(mr.params) if not p_.get('ptr') and not p_.get('record')]
+    if len(a_fd) != 1 or len(a_band) != 1:
+        raise AnalysisBroken('iv_fd_make_ready: descriptor / bands parameters not identified')
+    A_FD, A_BAND = a_fd[0], a_band[0]
     for t, slots in sorted(prog.method_tables().items()):
         v = slots.get('poll')
         f = prog.resolve(*v) if v else None
         if f is None:
             raise AnalysisBroken('%s: no poll slot' % t)
         g = inline_slot(prog, t, f, stop=('iv_event_run_pending_events', 'iv_fd_make_ready'))
-        calls = [e for e in g.events() if is_call(e, 'iv_fd_make_ready') and len(e.get('args', [])) == 3]
+        calls = [e for e in g.events() if is_call(e, 'iv_fd_make_ready') and len(e.get('args', [])) == len(mr.params)]
         if not calls:
             raise AnalysisBroken('%s: the poll slot never reports a descriptor (iv_fd_make_ready)' % t)
         callids = {id(e) for e in calls}
@@ -801,7 +1003,7 @@ def report(ctx):
                     advancing.add(l['name'])
         cursor = set(sdeps)
         for e in calls:
-            cursor |= deps(e['args'][1])
+            cursor |= deps(e['args'][A_FD])
         cursor &= advancing
 
         def is_boundary(e):
@@ -817,7 +1019,7 @@ def report(ctx):
                 s.pop(U, None)
                 return s
             if id(e) in callids:
-                b = ai.ev(e['args'][2], s)
+                b = ai.ev(e['args'][A_BAND], s)
                 s = dict(s)
                 if isinstance(b, int):
                     s[R] = s.get(R, 0) | (b & 7)
@@ -851,7 +1053,7 @@ def report(ctx):
         if unknown is not None:
             raise AnalysisBroken('%s: the band argument of iv_fd_make_ready is not decided by the abstract state' % t)
         for band in (MASKIN, MASKOUT, MASKERR):
-            locs = [e['loc'] for e in calls if strip(e['args'][2]).get('v') == band] or [f.loc]
+            locs = [e['loc'] for e in calls if strip(e['args'][A_BAND]).get('v') == band] or [f.loc]
             ok = band not in lost and band not in extra
             ctx.ob('R-C02d', '%s:report(band=%d)' % (short(t), band), ok, loc=locs[0],
                    detail='for every kernel event mask over {IN,OUT,ERR,HUP} an examined batch entry is reported for band %d exactly when the mask '
